@@ -12,6 +12,7 @@ operands the Spec states, unsupported constructs refused.  Helper lemmas: Proofs
 -/
 import SpsdkVerif.Proofs.Bd
 import SpsdkVerif.Proofs.BdLex
+import SpsdkVerif.Proofs.BdLexFull
 namespace SpsdkVerif.C19
 open SpsdkVerif SpsdkVerif.Bd SpsdkVerif.Generated
 
@@ -305,6 +306,69 @@ example : printTextB (.bin .lt (.atom (.size .b (.bin .add (.lit 1) (.bin .mul (
     = "1 + c0de * 31.b < ! defined ( x ) " := by decide
 /-- no concrete syntax: the suffix would follow a parenthesis -/
 example : Lexable [] (prB genLevels 0 (.atom (.size .b (.bin .mul (.lit 2) (.bin .add (.lit 1) (.lit 2)))))) = false := by decide
+
+/-! ### The whole lexer: every token class, every spelling -/
+
+/-- Lexing the rendering of ANY list of pieces of concrete syntax gives exactly the tokens the pieces denote.  Pieces (`CTok`):
+    canonical tokens, a token with an int-size suffix, identifier-shaped words (identifier / keyword / source name / `true false yes
+    no`), decimal, `K` and hexadecimal (`0x`/`0X`, digits in either case) literals, character and string literals, `$section`
+    names, every fixed-spelling operator or delimiter of the lexer's table and the literal `@`, `#` and `//` comments (which denote
+    no token).  Separator rule (`renderC`): every piece is followed by exactly one blank; a line comment ends with its newline. -/
+theorem lex_print_all (srcs : List String) (cts : List CTok) (h : allOkC srcs cts = true) :
+    lex srcs (String.ofList (renderC cts)) = .ok (tokensC srcs cts) := by
+  unfold lex
+  have := lex_renderC srcs cts ((String.ofList (renderC cts)).length + 1) none none [] h (Or.inl rfl) (by simp)
+  simpa using this
+
+/-- what an identifier-shaped word is: the keyword table of the lexer decides (`true`/`yes` are the number 1, `false`/`no` the
+    number 0, `defined` and the other reserved words their own token), then the `sources` block, else an identifier -/
+theorem word_meaning (srcs : List String) :
+    (BdGrammar.reserved.all fun p => wordTok srcs p.1 ==
+      (if p.2 == "TRUE" || p.2 == "YES" then .num 1 else if p.2 == "FALSE" || p.2 == "NO" then .num 0
+       else if p.2 == "DEFINED" then .defined else .kw p.2)) = true ∧
+    (∀ w, BdGrammar.reserved.find? (fun p => p.1 == w) = none →
+      wordTok srcs w = if srcs.contains w then .source w else .ident w) := by
+  refine ⟨by rfl, ?_⟩
+  intro w hw
+  simp [wordTok, hw]
+
+/-- integer literals denote the number their digits spell: positional value in base 10 / base 16 (digit values 0-9, a-f = A-F =
+    10-15), `K` multiplies by 1024, the canonical decimal spelling of `n` denotes `n`, a character literal is the big-endian
+    number of its bytes (`'dude'` = 0x64756465, the example of the lexer's own comment) -/
+theorem int_literal_values :
+    (∀ ds d, decVal (ds ++ [d]) = decVal ds * 10 + (d.toNat - 48)) ∧
+    (∀ ds d, hexVal (ds ++ [d]) = hexVal ds * 16 + hexDigitVal d) ∧
+    ("0123456789abcdefABCDEF".toList.map hexDigitVal = [0, 1, 2, 3, 4, 5, 6, 7, 8, 9, 10, 11, 12, 13, 14, 15, 10, 11, 12, 13, 14, 15]) ∧
+    (∀ n, decVal (decDigits n) = n) ∧
+    (∀ srcs ds, decOk ds = true → (CTok.kilo ds).toks srcs = [.num (decVal ds * 1024)]) ∧
+    (∀ body c, c.toNat < 128 → charLitVal (body ++ [c]) = charLitVal body * 256 + c.toNat) ∧
+    charLitVal "dude".toList = 0x64756465 := by
+  refine ⟨decVal_append, ?_, by decide, fun n => (decDigits_spec n).2.2.1, fun _ _ _ => rfl, ?_, by decide⟩
+  · intro ds d
+    simp [hexVal, List.foldl_append]
+  · intro body c hc
+    simp [charLitVal, List.flatMap_append, List.foldl_append, utf8Bytes, hc]
+
+/-- the model's reading of each lexer rule agrees with the CURRENT regexes and rule actions of sly_bd_lexer.py on the generated
+    probe texts (Python's `re` and the rule's own action computed the expected column): comments, identifiers, section names,
+    newline, INT_LITERAL (match length and value, incl. `K`, both hex prefixes, leading zeros, character literals; `0b11`, `1M`,
+    `1G` are not literals of this language), BINARY_BLOB, the INT_SIZE look-behind; the literal and ignored characters -/
+theorem lexer_rules_agree :
+    (BdGrammar.ruleProbes.all fun p => ruleLen p.1 p.2.1.toList == p.2.2) = true ∧
+    (BdGrammar.intLiteralProbes.all fun p => intLiteralAt p.1.toList == p.2) = true ∧
+    (BdGrammar.blobProbes.all fun p => blobAt p.1.toList == p.2) = true ∧
+    (BdGrammar.intSizeProbes.all fun p => intSizeAt p.1.toList == p.2) = true ∧
+    BdGrammar.literals = ["@"] ∧ BdGrammar.ignoreChars = ["\t", " "] := by
+  refine ⟨by decide, by decide, by decide, by decide, by decide, by decide⟩
+
+example : allOkC ["img"] [.word "load", .word "img", .punct "GT", .hex true "1fFF".toList, .punct "RANGE", .kilo "64".toList,
+    .punct "SEMI", .lineComment false " c".toList, .chr "ab".toList, .str "x;y".toList, .secname ".text*".toList,
+    .sized (.num 18) .b, .word "yes", .punct "@"] = true := by decide
+example : String.ofList (renderC [.word "load", .word "img", .punct "GT", .hex true "1fFF".toList, .punct "RANGE", .kilo "64".toList,
+    .punct "SEMI", .lineComment false " c".toList, .sized (.num 18) .b]) = "load img > 0X1fFF .. 64K ; // c\n 18.b " := by decide
+example : tokensC ["img"] [.word "load", .word "img", .punct "GT", .hex true "1fFF".toList, .punct "RANGE", .kilo "64".toList,
+    .punct "SEMI", .lineComment false " c".toList, .word "yes"] =
+    [.kw "LOAD", .source "img", .cmp .gt, .num 8191, .other "RANGE", .num 65536, .other "SEMI", .num 1] := by decide
 
 /-! ### Statements -/
 
